@@ -31,7 +31,7 @@ echo "demo without patch exit=$R0 (want 0); with patch exit=$R1 (want !=0); exis
 DET=""
 cd /repo && git apply $OUT/patch.diff || { echo "patch does not apply to /repo"; exit 2; }
 for c in $CHECKS; do
-  /verif/check $c --tier quick > $OUT/check_$c.log 2>&1; E=$?
+  VERIF_EVIDENCE_DIR=/tmp/verif_scratch_evidence /verif/check $c --tier quick > $OUT/check_$c.log 2>&1; E=$?
   V=$(grep -c "^VIOLATION" $OUT/check_$c.log)
   echo "check $c exit=$E violations=$V" | tee -a $LOG
   DET="$DET $c:exit$E"
